@@ -57,6 +57,9 @@ theorem build_has_no_other_map_loop :
     (ranges.filter (fun r => (r.fn == "Builder.Build" || r.fn == "Builder.buildOperation") && r.kind == "map")).length = 2 := by
   decide
 
+/-- a map iterated through `maps.Keys` / `maps.Values` / `maps.All` is order-free only directly under `slices.Sorted` -/
+theorem map_iterators_sorted : mapIterCalls.all (fun c => c.2.2) = true := by decide
+
 def allowedCallees : List String :=
   ["b.AddSecurityScheme", "b.AddServerVariable",
    "ex.Description", "ex.ExternalValue", "ex.Name", "ex.Summary", "ex.Value",
